@@ -61,7 +61,8 @@ Print Assumptions C02_property_key.
 (* ---- acceptance -------------------------------------------------------------------------------------
    For every environment of derived definitions inside the decidable fragment de_envb (Proofs/De_proofs.v: structs and enums
    of every shape — named, tuple, newtype, unit — generic or not, rename / rename_all / rename_all_fields / skip,
-   struct-level tag, all four enum representations, recursion, `inline` fields, `optional` / `optional = nullable` on Option
+   struct-level tag, all four enum representations incl. newtype variants of an internally tagged enum around a struct,
+   recursion, `inline` fields, `optional` / `optional = nullable` on Option
    fields and `optional_fields` on the container; no flatten / type / as overrides; arrays of at most ARRAY_TUPLE_LIMIT
    elements, so that the binding is the tuple of exactly that length; a tag key is no field key; the variants of a tagged
    enum have distinct names on the wire; every definition has a declaration and declaration names are distinct), for
@@ -174,6 +175,24 @@ Proof.
   split; [vm_compute; reflexivity|]. split; [vm_compute; reflexivity|]. split; [vm_compute; reflexivity|].
   split; [vm_compute; reflexivity|]. split; [vm_compute; reflexivity|]. split; [vm_compute; reflexivity|].
   split; [vm_compute; reflexivity|]. split; vm_compute; reflexivity.
+Qed.
+
+(* newtype variants of an internally tagged enum around structs (C01_newtype): `{ "type": "Text" } & TextMsg` *)
+Example C02_acceptance_newtype_nonvacuous :
+  let R := C01_newtype.R in
+  let E := env_of C01_example.up C01_example.al is_ascii_digit R 10 in
+  let j := JObj [(lit "type", JStr (lit "Text")); (lit "body", JStr (lit "hi")); (lit "n", JInt 2)] in
+  de_envb C01_example.up C01_example.al is_ascii_digit R 10 = true /\
+  exists a, name_of R C01_newtype.t = Ok a /\
+    memberb E 12 a j = true /\
+    de C01_example.up R 132 C01_newtype.t j = DOk (VVariant 1 [VStruct [VStr (lit "hi"); VInt 2]]) /\
+    (* a required field of the content missing: not a member, and rejected *)
+    memberb E 12 a (JObj [(lit "type", JStr (lit "Text")); (lit "body", JStr (lit "hi"))]) = false /\
+    de C01_example.up R 132 C01_newtype.t (JObj [(lit "type", JStr (lit "Text")); (lit "body", JStr (lit "hi"))]) = DReject.
+Proof.
+  cbv zeta. split; [vm_compute; reflexivity|]. eexists.
+  split; [vm_compute; reflexivity|]. split; [vm_compute; reflexivity|]. split; [vm_compute; reflexivity|].
+  split; vm_compute; reflexivity.
 Qed.
 
 Print Assumptions C02_members_are_accepted.
